@@ -17,9 +17,11 @@ SPEC = {
         "fonts that fail to load are outside the property; 'well-formed font' (for the glyph-id clause) = an unmodified fixture font",
         "a crash = panic, abort (child process dies) or a call longer than 5 s",
     ],
-    "rule": "16 fixture fonts (Latin, Arabic, 8 Indic scripts, Khmer, Myanmar, variable) x 29 script tags (the font's own 3/4 of "
+    "rule": "25 fixture fonts (Latin, Arabic, Syriac, nine Indic scripts, Sinhala, Khmer, Myanmar, Thai, Lao, variable) x 29 script tags (the font's own 3/4 of "
             "the time) x language tag x Features::Mask (empty, default, random bits) / Custom (three tag sets) x kerning x "
             "direction x text of 0-50 code points over script alphabets with lone marks, joiners, variation selectors, dotted "
             "circle, NUL, U+10FFFF and foreign characters; 1 in 3 cases on a font whose GSUB/GPOS/GDEF/kern/morx bytes were "
-            "mutated (1-4 edits). distinct = distinct input lines; histogram = pristine/mutated x script x font",
+            "mutated (1-4 edits); 1 case in 4 a synthetic GSUB program (C04 generator, whole-run kinds, incl. nested-lookup cycles and "
+            "feature variations) or GPOS/GDEF/kern program (C05 generator, incl. degenerate counts) through gsub::apply / gpos::apply "
+            "+ glyph_positions, totality only; every case in a child process. distinct = distinct input lines; histogram = pristine/mutated x script x font",
 }
